@@ -9,6 +9,7 @@ verus! {
 //@include spec/eval_context.spec.rs
 //@include spec/derive_assumed.rs
 //@include spec/row.spec.rs
+//@include spec/rowview.spec.rs
 //@include spec/expand.spec.rs
 
 impl Signal {
